@@ -94,4 +94,126 @@ theorem goto_sim {caps : TermPen.Caps} {t0 t : GridTerm} {s0 s : XScreen} (h : S
       · show max 0 (min c (t.cols - 1)) < t.cols
         omega
 
+/-! ### setpen -/
+
+/-- **setpen_sim**: a setpen request keeps the two terminals in step (the rendition of the VT follows `tt->pen`), and
+    moves neither cursor. -/
+theorem setpen_sim {caps : TermPen.Caps} {t0 t : GridTerm} {s0 s : XScreen} (h : Sim caps t0 s0 t s) (p : Pen)
+    (hp : PenEncodable caps p) :
+    Sim caps t0 s0 (t.stepL s.lines (.setpen p)) (s.interp (reqCalls caps t.pen (.setpen p)).flatten) ∧
+    (Cur t s → Cur (t.stepL s.lines (.setpen p)) (s.interp (reqCalls caps t.pen (.setpen p)).flatten)) ∧
+    (s.interp (reqCalls caps t.pen (.setpen p)).flatten).lines = s.lines := by
+  rw [interp_setpen caps t.pen p s h.ground h.attrs h.enc hp]
+  refine ⟨?_, ?_, rfl⟩
+  · exact { lines := h.lines, cols := h.cols, cols_pos := h.cols_pos, ground := h.ground, attrs := rfl,
+            enc := penEncodable_termSetpen caps t.pen p h.enc hp, oracle := h.oracle, writes := h.writes,
+            cells := h.cells }
+  · intro hc
+    exact { row := hc.row, rowIn := hc.rowIn, col := hc.col, last := hc.last }
+
+/-! ### erasech -/
+
+namespace GT
+
+theorem erasech_cells (t : GridTerm) (n : Int) (m : MaybeBool) (hn : 1 ≤ n) (l c : Int) :
+    (t.erasech n m).cells l c =
+      if l = t.line ∧ min t.col (t.cols - 1) ≤ c ∧ c < min t.col (t.cols - 1) + n ∧ c < t.cols then
+        { glyph := .blank, pen := t.pen, writes := (t.cells l c).writes + 1 }
+      else t.cells l c := by
+  unfold GridTerm.erasech
+  rw [if_neg (by omega)]
+  cases m <;> rfl
+
+theorem erasech_fields (t : GridTerm) (n : Int) (m : MaybeBool) (hn : 1 ≤ n) :
+    (t.erasech n m).line = t.line ∧ (t.erasech n m).cols = t.cols ∧ (t.erasech n m).pen = t.pen ∧
+    (t.erasech n m).oracle = t.oracle ∧ (t.erasech n m).last = none := by
+  unfold GridTerm.erasech
+  rw [if_neg (by omega)]
+  cases m <;> exact ⟨rfl, rfl, rfl, rfl, rfl⟩
+
+theorem erasech_col_yes (t : GridTerm) (n : Int) (hn : 1 ≤ n) :
+    (t.erasech n .yes).col = min (min t.col (t.cols - 1) + n) (t.cols - 1) := by
+  unfold GridTerm.erasech
+  rw [if_neg (by omega)]
+
+theorem erasech_col_maybe (t : GridTerm) (n : Int) (hn : 1 ≤ n) (ho : t.oracle t.nmaybe = false) :
+    (t.erasech n .maybe).col = t.col := by
+  unfold GridTerm.erasech
+  rw [if_neg (by omega)]
+  simp only [ho]
+  rfl
+
+end GT
+
+theorem ech_cells (s : XScreen) (n : Int) (l c : Int) :
+    (s.ech n).cells l c =
+      if l = s.row ∧ s.col ≤ c ∧ c < s.col + n ∧ c < s.cols then
+        { glyph := .blank, attrs := XScreen.blankAttrs s.attrs, writes := (s.cells l c).writes + 1 }
+      else s.cells l c := rfl
+
+/-- **erase_sim**: outside reverse video an erase request of `n ≥ 1` cells (`TICKIT_YES` or `TICKIT_MAYBE`, the two
+    values the flush uses), read by the VT screen as the bytes of the driver's `erasech` (ECH, then CUF for
+    `TICKIT_YES`), does what it does on the grid terminal: the same cells blanked once more, in the background of
+    `tt->pen`; the cursors agree afterwards (moved to the end, clamped to the last column, or left where they were -
+    also in the pending-wrap state). -/
+theorem erase_sim {caps : TermPen.Caps} {t0 t : GridTerm} {s0 s : XScreen} (h : Sim caps t0 s0 t s) (hcur : Cur t s)
+    (n : Int) (hn : 1 ≤ n) (m : MaybeBool) (hm : m ≠ .no) (hrv : Pen.getBool t.pen.reverse = false) :
+    Sim caps t0 s0 (t.stepL s.lines (.erasech n m)) (s.interp (reqCalls caps t.pen (.erasech n m)).flatten) ∧
+    Cur (t.stepL s.lines (.erasech n m)) (s.interp (reqCalls caps t.pen (.erasech n m)).flatten) ∧
+    (s.interp (reqCalls caps t.pen (.erasech n m)).flatten).lines = s.lines := by
+  have e : s.interp (reqCalls caps t.pen (.erasech n m)).flatten =
+      if m = .yes then (s.ech n).moveTo s.row (s.col + n) else s.ech n := by
+    simp only [reqCalls, hrv]
+    exact interp_erase s h.ground n hn m
+  have hstart : min t.col (t.cols - 1) = s.col := by
+    rcases hcur.col with ⟨_, h2, h3, h4⟩ | ⟨_, h2, h3⟩ <;> omega
+  obtain ⟨fl, fc, fp, fo, fla⟩ := GT.erasech_fields t n m hn
+  have hcells : ∀ l c, (((t.erasech n m).cells l c = t0.cells l c ∧ (s.ech n).cells l c = s0.cells l c) ∨
+      Written caps (t0.cells l c) ((t.erasech n m).cells l c) ((s.ech n).cells l c)) ∧
+      ((s.ech n).cells l c).writes = ((t.erasech n m).cells l c).writes := by
+    intro l c
+    rw [GT.erasech_cells t n m hn, ech_cells, hstart, ← hcur.row, h.cols]
+    by_cases hin : l = s.row ∧ s.col ≤ c ∧ c < s.col + n ∧ c < t.cols
+    · rw [if_pos hin, if_pos hin]
+      refine ⟨Or.inr ⟨Nat.lt_succ_of_le (h.mono l c), rfl, ?_⟩, by simp [h.writes l c]⟩
+      simp [h.attrs]
+    · rw [if_neg hin, if_neg hin]
+      exact ⟨h.cells l c, h.writes l c⟩
+  have hsim : Sim caps t0 s0 (t.erasech n m) (s.ech n) :=
+    { lines := h.lines, cols := by rw [fc]; exact h.cols, cols_pos := by rw [fc]; exact h.cols_pos, ground := h.ground,
+      attrs := by rw [fp]; exact h.attrs, enc := by rw [fp]; exact h.enc, oracle := by rw [fo]; exact h.oracle,
+      writes := fun l c => (hcells l c).2, cells := fun l c => (hcells l c).1 }
+  show Sim caps t0 s0 (t.erasech n m) _ ∧ Cur (t.erasech n m) _ ∧ _
+  rw [e]
+  have hL := h.lines
+  have hC := h.cols_pos
+  have hcs := h.cols
+  have hrow := hcur.row
+  have hri := hcur.rowIn
+  cases m with
+  | no => exact absurd rfl hm
+  | yes =>
+    simp only [if_true]
+    refine ⟨?_, ?_, rfl⟩
+    · exact { lines := hsim.lines, cols := hsim.cols, cols_pos := hsim.cols_pos, ground := hsim.ground,
+              attrs := hsim.attrs, enc := hsim.enc, oracle := hsim.oracle, writes := hsim.writes, cells := hsim.cells }
+    · refine { row := ?_, rowIn := by rw [fl]; exact hri, col := ?_, last := by rw [fla]; rfl }
+      · rw [fl]
+        show max 0 (min s.row (s.lines - 1)) = t.line
+        omega
+      · left
+        rw [GT.erasech_col_yes t n hn, fc, hstart]
+        refine ⟨rfl, ?_, ?_, ?_⟩
+        · show max 0 (min (s.col + n) (s.cols - 1)) = _
+          rcases hcur.col with ⟨_, h2, h3, h4⟩ | ⟨_, h2, h3⟩ <;> omega
+        · rcases hcur.col with ⟨_, h2, h3, h4⟩ | ⟨_, h2, h3⟩ <;> omega
+        · omega
+  | maybe =>
+    have hne : (MaybeBool.maybe = MaybeBool.yes) = False := by simp
+    simp only [hne, if_false]
+    refine ⟨hsim, ?_, rfl⟩
+    refine { row := by rw [fl]; exact hrow, rowIn := by rw [fl]; exact hri, col := ?_, last := by rw [fla]; rfl }
+    rw [GT.erasech_col_maybe t n hn (h.oracle _), fc]
+    exact hcur.col
+
 end Tickit.RBFlushX
